@@ -114,7 +114,7 @@ def run(ctx):
         states=mc["states"], transitions=mc["transitions"], traces_validated_against_impl=s["runs"],
         samples=s["samples"][:3], constants=dict(cfg=cfg, vectors=mc["emitted"]),
         scenarios_emitted=mc["emitted"], scenarios_replayed=s["scenarios"], random_vectors=len(rnd), regression_scenarios=len(reg),
-        events=nlines, per_family_counts=s["counts"], real_outcomes=s["outcomes"], panics=s["panics"][:5],
+        events=nlines, per_family_counts=s["counts"], real_outcomes=s["outcomes"], panics=(s.get("panics") or [])[:5],
         formula_antecedent_hits=counts, violations_per_formula=per_formula, drift=dict(unmatched_calls=0),
         monitor_formulas=MON_FORMULAS, exhaustive=True,
         checker_cmd="tlc MCPatches (M,G) -> harness/drivers/patches on /repo (T) -> tlc MonPatches",
